@@ -61,3 +61,18 @@ func useAfterPut(n *Node) string {
 	PutNode(n)
 	return n.Name
 }
+
+// memoised nodes: one shared node linked into every holder (reported) versus copied on every use (accepted).
+type Holder struct{ Child *Node }
+
+func cloneNode(n *Node) *Node { c := *n; return &c }
+
+func sharedMemo() func(h *Holder) {
+	once := sync.OnceValue(func() *Node { return GetNode() })
+	return func(h *Holder) { h.Child = once() }
+}
+
+func copiedMemo() func(h *Holder) {
+	once := sync.OnceValue(func() *Node { return GetNode() })
+	return func(h *Holder) { h.Child = cloneNode(once()) }
+}
